@@ -12,7 +12,7 @@ use std::cmp::Ordering;
 use std::sync::Arc;
 
 pub fn count(tier: Tier) -> u64 {
-    tier.pick(320, 3000)
+    tier.pick(320, 16000)
 }
 
 /// The search itself, exhaustively within a bound: every strictly increasing sequence of length <= 8 over 10 symbols
